@@ -307,6 +307,6 @@ func connsOf(s []peer.Seen) []int {
 	return out
 }
 
-func TestPropRetry(t *testing.T) { hx.Check(t, 2000, genCase, runCase) }
+func TestPropRetry(t *testing.T) { hx.Check(t, 6000, genCase, runCase) }
 
 func TestReplay(t *testing.T) { hx.Replay(t, "TestPropRetry", 10, runCase) }
